@@ -5,6 +5,7 @@ import Astits.Driver.DemuxOp
 import Astits.Spec.Mux
 import Astits.Gen.PES
 import Astits.Gen.PSI
+import Astits.Gen.Stream
 namespace Astits.DriverMux
 open Spec
 
@@ -332,6 +333,25 @@ def runReuse (prop : String) (t : Tier) (n : Nat) : Emit Unit := do
     let (period, pre, ds) ← liftGen genReuse
     for c in reuseCases period pre ds "af-object-reused" do
       emit prop c
+
+/-- C16, muxer side: the caller's payload bytes are never modified; independent muxers and demuxers running in different
+goroutines behave as they do alone -/
+def runC16mux (t : Tier) : Emit Unit := do
+  for _ in [0:(if t.quick then 6 else 40)] do
+    let period ← liftGen genPeriod
+    let h ← liftGen (genHistory 15 period true)
+    emit "C16" { op := "mux", args := [("period", jnat h.period), ("ops", jarr (h.ops.map opJson)), ("view", jstr "payload")],
+                 model := "payload-unchanged=true", spec := some "payload-unchanged=true", tag := "muxer-keeps-payload" }
+  for _ in [0:(if t.quick then 1 else 6)] do
+    let mut subs : List String := []
+    for j in [0:4] do
+      let period ← liftGen genPeriod
+      let h ← liftGen (genHistory 12 period true)
+      subs := subs ++ [(muxCase h false "sub").line "C16" 0, (muxDemuxCase h "sub").line "C16" 0]
+      let m ← liftGen (genStream { pesPIDs := [0x100 + j], pmtPIDs := [0x1000], dvb := true, unitsPerPID := 2, maxPayload := 3000 })
+      subs := subs ++ [(demuxCase m.bytes { view := .perpid } none none "sub").line "C16" 0]
+    emit "C16" { op := "concurrent", args := [("cases", jarr subs), ("rounds", jnat (if t.quick then 20 else 60))],
+                 model := "consistent", spec := some "consistent", tag := "concurrent-muxers-and-demuxers" }
 
 def runC01 (t : Tier) : Emit Unit := do
   runReuse "C01" t 8
